@@ -211,11 +211,20 @@ func TestVerifC50Rest(t *testing.T) {
 		}
 		if strings.TrimSuffix(shown, "/") != strings.TrimSuffix(s, "/") {
 			classes = append(classes, "rest:display-differs-from-input")
-			if !strings.Contains(strings.ToLower(shown), strings.ToLower(cfg.URL.Host)) {
-				t.Fatalf("location %q is displayed as %q (host %q lost)", s, shown, cfg.URL.Host)
+			// either the displayed form parses to the same host and path, or (a user name
+			// shown unescaped may prevent that) host and path are literally in it
+			sameWhenParsed := false
+			if c2, err2 := rest.ParseConfig(shown); err2 == nil {
+				sameWhenParsed = c2.URL.Host == cfg.URL.Host && c2.URL.Path == cfg.URL.Path
 			}
-			if !strings.Contains(shown, strings.TrimSuffix(cfg.URL.EscapedPath(), "/")) && !strings.Contains(shown, strings.TrimSuffix(cfg.URL.Path, "/")) {
-				t.Fatalf("location %q is displayed as %q (path %q lost)", s, shown, cfg.URL.Path)
+			if !sameWhenParsed {
+				classes = append(classes, "rest:display-not-reparsable-to-same")
+				if !strings.Contains(strings.ToLower(shown), strings.ToLower(cfg.URL.Host)) {
+					t.Fatalf("location %q is displayed as %q (host %q lost)", s, shown, cfg.URL.Host)
+				}
+				if !strings.Contains(shown, strings.TrimSuffix(cfg.URL.EscapedPath(), "/")) && !strings.Contains(shown, strings.TrimSuffix(cfg.URL.Path, "/")) {
+					t.Fatalf("location %q is displayed as %q (path %q lost)", s, shown, cfg.URL.Path)
+				}
 			}
 		}
 		st.Case(key, classes...)
